@@ -4,6 +4,9 @@ manifest stays valid while checks are added)."""
 import json, os
 ROOT = os.path.dirname(os.path.abspath(__file__))
 CHECKS = {
+ "C15": dict(level="exploration", technique="reference set model of live TOIs checked after every operation over all operation sequences to a depth, wrap-around stress, real-thread stress with call/return event log; wire/FDT comparison through the independent decoder; compile-time Send/Sync assertions (thorough adds TSan and Miri many-seeds)",
+     text="All sequences of six operations up to depth 6 (quick) / 8 (thorough) for each of the six TOI widths and eight initial values (incl. 0, max, 2^w, u128::MAX and the random default) run against the real sender with the Live-set model checked after every step and wire/FDT TOIs compared; 70 000-allocation wrap runs with up to 65 530 live handles; 2-8 real threads allocating under a mutex and dropping moved handles without it, judged on a merged call/return log. Complete for the enumerated sequences, sampled schedules for threads.",
+     note="trusted: set model, independent decoder, global sequence counter; thread schedules are whatever the OS (and Miri seeds) produce", ref="DESIGN.md §5 C15"),
  "C14": dict(level="exploration", technique="timing monitor over (virtual instant, packet) pairs and Start/Stop instants under generated polling schedules (microsecond virtual clock); degenerate-input robustness with step budget and overflow instrumentation",
      text="Thousands of runs under fixed, jittered, bursty and standing-still polling schedules from 1 us to 10 s periods: packets and StartTransfer are never before the transfer start time or trigger timestamp, carousel cycles never start before the configured delay/interval, paced packet i is never before start + i*target/ceil(L/E), and a lone paced object under drain polling emits each due packet at the first poll after its due time; 14 degenerate inputs x 8 variants and extreme clocks must not panic, hang or starve a plain object. Held on the runs executed.",
      note="trusted: harness virtual clock; carousel gap judged between cycles of max_transfer_count transfers (flute resets the counter per cycle); lateness under coarse polling is not a violation", ref="DESIGN.md §5 C14"),
